@@ -1,6 +1,6 @@
 (* Property theorems for C03 -- statements only; proofs are `exact` of lemmas. *)
 From Coq Require Import ZArith List Bool Lia QArith.
-From GD Require Import C04.Bytes C03.Write C03.WriteProofs C03.Sie C03.SieProofs.
+From GD Require Import C04.Bytes C03.Write C03.WriteProofs C03.Sie C03.SieProofs C03.SieRefine.
 Import ListNotations.
 Local Open Scope nat_scope.
 
@@ -43,7 +43,31 @@ Theorem oop_read_returns_field : forall chunk, 1 <= chunk -> forall st n, oop_ok
   oop_abs (fst (oop_get chunk st n)) = oop_abs st /\ oop_ok (fst (oop_get chunk st n)).
 Proof. exact oop_get_correct. Qed.
 
-(* ---- SIE: the cursor machine of sie.c ---- *)
+(* ---- SIE: the cursor machine of sie.c (_GD_SampIndSeek with gap padding, _GD_SampIndWrite with
+   look-back, run merging/splitting, trailing-record move and truncation) ---- *)
+(* one gd_putdata from any reachable cursor (fresh handle on any well-formed file, or after a write) *)
+Theorem sie_write_refines : forall zero p data st,
+  sie_inv zero st -> (0 <= p)%Z ->
+  exists st', sie_put zero p data st = Some st' /\ sie_inv zero st' /\
+    sie_abs st' = array_write zero (sie_abs st) (Z.to_nat p) data.
+Proof. exact put_ok. Qed.
+
+(* all histories of writes (appends, overwrites, gaps, backward writes, any run structure) with the field
+   closed and reopened at will: every call succeeds and the file expands to the flat array *)
+Theorem sie_histories_refine : forall zero (ops : list sie_op) st,
+  sie_inv zero st -> Forall op_ok ops ->
+  exists h, fold_left (sie_op_step zero) ops (Some st) = Some h /\ sie_inv zero h /\
+    sie_abs h = fold_left (sie_spec_step zero) ops (sie_abs st).
+Proof. exact sie_histories. Qed.
+
+(* from a new field: the flat array, and record ends that strictly increase (what C04 asks of the file) *)
+Theorem sie_new_field_refines : forall zero hist, Forall (fun w => (0 <= fst w)%Z) hist ->
+  exists h, sie_run zero hist = Some h /\ sie_abs h = spec_of zero hist /\ ends_increasing (-1) (recs h).
+Proof. exact sie_refines. Qed.
+
+Theorem sie_reachable_files_increase : forall zero st, sie_inv zero st -> ends_increasing (-1) (recs st).
+Proof. exact sie_inv_increasing. Qed.
+
 (* the in-core compression loop of _GD_SampIndWrite, for every run structure of the data and of the
    record being extended: the new records expand to what was there up to p+i-1, followed by the data *)
 Theorem sie_incore_compression_correct : forall prev p data i e cur rest,
@@ -96,5 +120,8 @@ Theorem linterp_segment_inverse : forall x0 y0 x1 y1 x : Q, ~ (x1 - x0 == 0)%Q -
 Proof. exact seg_interp_inverse. Qed.
 
 (* hypotheses are satisfiable *)
+Example sie_inv_inhabited : sie_inv [0%Z] (sie_open [0%Z] [(3%Z, [7%Z])]).
+Proof. left. eexists. split; [reflexivity|]. cbn. lia. Qed.
+
 Example oop_ok_inhabited : oop_ok (mkOop [[1%Z]; [2%Z]] true true 1 (Some [[7%Z]])).
 Proof. split; [split; cbn; [reflexivity | discriminate] | discriminate]. Qed.
